@@ -188,6 +188,7 @@ pub fn run(ctx: &Ctx) -> (Report, Meta) {
     .floor("status_Success", 300)
     .floor("status_UserInterrupt", 20);
     let g = GenOpts {
+        stiff_for_implicit: true,
         allow_tiny_span: true,
         allow_huge: true,
         allow_inf: true,
